@@ -56,6 +56,13 @@ def sources(tier, wd, out, per_focus_quick=250, per_focus_thorough=1200, foci=FO
                      '<g opacity="0.5"><rect width="4" height="4"/>%s</g><rect x="6" width="3" height="3"/>'):
             res.append(("family/unsupported-in-group", '<svg xmlns="http://www.w3.org/2000/svg" viewBox="0 0 16 16">'
                         '<g opacity="0.5">%s</g><rect x="9" y="9" width="5" height="5"/></svg>' % (body % u), None))
+    # stops that carry ids, the gradient cloned for transformed users (a clone must not repeat an id)
+    for body in ('<rect width="5" height="5" fill="url(#a)"/><rect width="5" height="5" fill="url(#a)" transform="translate(6,0)"/>',
+                 '<rect width="5" height="5" fill="url(#a)" transform="translate(0,6)"/><rect width="5" height="5" fill="url(#a)" transform="translate(6,0)"/>',
+                 '<rect id="r" width="5" height="5" fill="url(#a)"/><use xlink:href="#r" x="6"/><use xlink:href="#r" y="6"/>'):
+        res.append(("family/stop-ids", '<svg xmlns="http://www.w3.org/2000/svg" xmlns:xlink="http://www.w3.org/1999/xlink" viewBox="0 0 16 16">'
+                    '<defs><linearGradient id="a" gradientUnits="userSpaceOnUse" x2="9"><stop id="stop831" offset="0" stop-color="red"/>'
+                    '<stop id="stop833" offset="1" stop-color="blue"/></linearGradient></defs>%s</svg>' % body, None))
     # a gradient whose only user is passed-through text
     for body in ('<path fill="blue" d="M0,0 L5,0 L5,5 Z"/><text fill="url(#a)" x="1" y="12">hi</text>',
                  '<text x="1" y="12"><tspan fill="url(#a)">hi</tspan></text><rect width="3" height="3"/>',
